@@ -1,19 +1,24 @@
 import RsslVerif.Driver.C02Vec
 import RsslVerif.Model.MslDup
 /-!
-Line-protocol front end of the struct-cast model (`Model.MslDup`).
+Line-protocol front end of the models of the two operand-repeating arms (`Model.MslDup`).
 
-`C02.dup <source> <cast> ;; <cast> …` with `<cast> = <type shape> @ <operand>` (forms of `harness/src/c02/dupcast.rs`): every
-cast of the module to a struct type from a value of another type.  The answer is what the Metal exporter does with the module
-as far as these casts decide: `diagnostic GenerateError(UnsupportedCast)` if `structCastNow` refuses one of them, else
-`casts n1 n2 …`, the sorted numbers of clauses of the emitted braced lists.  Everything else goes to `Driver.C02Vec.handle`.
+`C02.dup <source> <entry> ;; <entry> …` with `<entry> = cast <type shape> @ <operand type id> @ <operand>` or
+`rem <target> @ <right operand>` (forms of `harness/src/c02/dupcast.rs`): every cast of the module to a struct type from a
+value of another type, every `%=` on a floating-point target.  The answer is what the Metal exporter does with the module as far as these
+decide: `diagnostic GenerateError(UnsupportedCast)` if `structCastNow` refuses a cast,
+`diagnostic GenerateError(ComplexRemainderAssignment)` if `remAssignNow` refuses a target or a right operand (both kinds in one module: the
+exporter reports the one it meets first, which the entries do not determine — `unsupported`), else
+`casts c1 c2 … ; rem k`: per emitted braced list the number of clauses and the equality classes of its clauses (the operand
+itself / the operand converted to element type K), sorted, and the number of targets written twice.  Everything else goes to
+`Driver.C02Vec.handle`.
 -/
 namespace RsslVerif.Driver.C02Dup
-open RsslVerif.Model.MslDup RsslVerif.Driver.C01
+open RsslVerif.Model.MslDup RsslVerif.Driver.C01 RsslVerif.Gen.MslGenTables
 
 partial def parseCTy? (x : Sx) : Option CTy :=
   match x.head, x.args with
-  | "leaf", [] => some .leaf
+  | "leaf", [k] => k.atom.toNat?.map .leaf
   | "arr", [e, n] =>
     match parseCTy? e with
     | none => none
@@ -32,6 +37,8 @@ partial def parseFields? : List Sx → Option DFields
     | some rest =>
       match f with
       | .a "p" => some (.payload 0 rest)
+      | .a s =>
+        if s.startsWith "o:" then (intrinsicOpNames.idxOf? ((s.drop 2).toString)).map (fun k => .payload k rest) else none
       | _ =>
         match f.head, f.args with
         | "one", [e] => (parseD? e).map (fun d => .one d rest)
@@ -45,28 +52,60 @@ partial def parseDs? : List Sx → Option DExprs
     | _, _ => none
 end
 
-def insertSorted (n : Nat) : List Nat → List Nat
+def insertSortedS (n : String) : List String → List String
   | [] => [n]
-  | m :: r => if n ≤ m then n :: m :: r else m :: insertSorted n r
+  | m :: r => if n ≤ m then n :: m :: r else m :: insertSortedS n r
 
-def handleDup (casts : String) : String :=
-  let items := if casts == "-" then [] else casts.splitOn " ;; "
-  let outcomes := items.map fun it =>
-    match it.splitOn " @ " with
-    | [t, e] =>
-      match parseAll t, parseAll e with
-      | [tx], [ex] =>
+/-- `<n>:<class of clause 1>.<class of clause 2>…`, classes numbered by first occurrence -/
+def showClauses (cs : List Clause) : String :=
+  let step := fun (acc : List Clause × List String) (c : Clause) =>
+    match acc.1.idxOf? c with
+    | some k => (acc.1, acc.2 ++ [toString k])
+    | none => (acc.1 ++ [c], acc.2 ++ [toString acc.1.length])
+  let r := cs.foldl step ([], [])
+  toString cs.length ++ ":" ++ ".".intercalate r.2
+
+inductive Entry where
+  | cast (o : CastOutcome)
+  | rem (o : RemAssignOutcome)
+
+def parseEntry? (it : String) : Option Entry :=
+  if it.startsWith "cast " then
+    match ((it.drop 5).toString).splitOn " @ " with
+    | [t, k, e] =>
+      match parseAll t, k.toNat?, parseAll e with
+      | [tx], some inTy, [ex] =>
         match parseCTy? tx, parseD? ex with
-        | some ty, some d => some (structCastNow ty d)
+        | some ty, some d => some (.cast (structCastNow ty inTy d))
+        | _, _ => none
+      | _, _, _ => none
+    | _ => none
+  else if it.startsWith "rem " then
+    match ((it.drop 4).toString).splitOn " @ " with
+    | [a, b] =>
+      match parseAll a, parseAll b with
+      | [ax], [bx] =>
+        match parseD? ax, parseD? bx with
+        | some da, some db => some (.rem (remAssignNow da db))
         | _, _ => none
       | _, _ => none
     | _ => none
-  if outcomes.any (·.isNone) then "bad-request" else
-  let os := outcomes.filterMap id
-  if os.any (fun o => match o with | .panic _ => true | _ => false) then "panic" else
-  if os.any (· == .unsupportedCast) then "diagnostic GenerateError(UnsupportedCast)" else
-  let counts := os.foldl (fun acc o => match o with | .repeated n => insertSorted n acc | _ => acc) []
-  "casts" ++ String.join (counts.map (fun n => " " ++ toString n))
+  else none
+
+def handleDup (entries : String) : String :=
+  let items := if entries == "-" then [] else entries.splitOn " ;; "
+  let parsed := items.map parseEntry?
+  if parsed.any (·.isNone) then "bad-request" else
+  let es := parsed.filterMap id
+  if es.any (fun e => match e with | .cast (.panic _) => true | _ => false) then "panic" else
+  let castRefused := es.any (fun e => match e with | .cast .unsupportedCast => true | _ => false)
+  let remRefused := es.any (fun e => match e with | .rem .refused => true | _ => false)
+  if castRefused && remRefused then "unsupported: refusals of two kinds" else
+  if castRefused then "diagnostic GenerateError(UnsupportedCast)" else
+  if remRefused then "diagnostic GenerateError(ComplexRemainderAssignment)" else
+  let lists := es.foldl (fun acc e => match e with | .cast (.clauses cs) => insertSortedS (showClauses cs) acc | _ => acc) []
+  let rems := (es.filter (fun e => match e with | .rem .targetTwice => true | _ => false)).length
+  "casts" ++ String.join (lists.map (fun n => " " ++ n)) ++ " ; rem " ++ toString rems
 
 def handle (op : String) (args : List String) : String :=
   match op, args with
